@@ -221,7 +221,15 @@ def main (args : List String) : IO UInt32 := do
           let s1 := progs.map fun a => Props.C05.absSafe fam raise lvl a true
           let show1 (l : List (Option Bool)) : String :=
             if l.all (· == some false) then "F" else if l.all (· == some true) then "T" else if l.all (·.isSome) then "M" else "x"
-          IO.println s!"S {p.name} {name} resetFirst={all (Props.C11.goodResets true)} resetAny={all (Props.C11.goodResets false)} abs0={show1 s0} abs1={show1 s1} conforms={all (Props.opConforms p (if name.startsWith "lut" then "lut" else if name.startsWith "refresh" then "refresh" else name))}"
+          let dsProgs := ds.filterMap fun d => (p.prog d op).map fun a => (d, a)
+          let sleepDeep := name == "sleep" && all (Props.sleepEndsDeep p)
+          let wakeNew := name == "wake" && dsProgs.all fun (d, a) => Props.wakeLikeNew p a ((p.prog d .new).getD [])
+          let hasRef := (Spec.lutRef f p.name .full).isSome
+          let lutSel := hasRef && (if name == "lutfull" then all (Props.lutMatches f p .full)
+            else if name == "lutquick" then all (Props.lutMatches f p .quick) else false)
+          let lutCur := hasRef && (name == "lutnone" || ((name == "wake" || name == "new") && Spec.initUploads p.name)) &&
+            dsProgs.all fun (d, a) => Props.lutMatches f p d.refresh a
+          IO.println s!"S {p.name} {name} sleepDeep={sleepDeep} wakeNew={wakeNew} lutSel={lutSel} lutCur={lutCur} resetFirst={all (Props.C11.goodResets true)} resetAny={all (Props.C11.goodResets false)} abs0={show1 s0} abs1={show1 s1} conforms={all (Props.opConforms p (if name.startsWith "lut" then "lut" else if name.startsWith "refresh" then "refresh" else name))}"
     return 0
   | "check" :: sf :: tf :: rest => do
     let rec opt (k : String) : List String → Option String
